@@ -2,11 +2,33 @@
 """Regenerates MANIFEST.json from the table below (kept in one place so it is always valid)."""
 import json, os
 ROOT = os.path.dirname(os.path.abspath(__file__))
+TECH = "contract-based deductive verification: AST->VC symbolic execution of the real functions + z3 (cvc5 cross-check in thorough)"
+TRUST = "Trusted: pvc symbolic executor (Python-subset semantics, library models listed in the evidence), z3. "
 CLAIMED = {
+    "C03": dict(category="proof", design_ref="DESIGN.md section 5/C03",
+        text="Deductive: HandlerCollection.proceed is proved for ANY number of pending (selector, accumulator) pairs against a closed-form loop invariant (next pairs, forks, registrations); fits_selector, register, fork, build, proceed.__enter__/__exit__ are under contract; the stack-step lemma connects the contract to the embedding count.",
+        note=TRUST + "fits_selector/register are used by proceed through their contracts; fork of an opaque accumulator is an uninterpreted function of the history; ContextVar token semantics assumed. fits_selector, register and build are proved on concrete spines (bounded, labelled).",
+        technique=TECH),
+    "C05": dict(category="proof", design_ref="DESIGN.md section 5/C05",
+        text="Deductive: StackedTransforms/SyncedStackedTransforms push/pop/get/_apply are proved to preserve the multiset invariant from an arbitrary well-formed state (hence after every history), TransformSet memo, _tooler/_untooler/autotool, BaseOverlay.__enter__/__exit__ (any number of handlers) and Probe enter/exit are under contract. Two genuine defects are recorded as known findings (non-LIFO exit, refused selector leaks tooling).",
+        note=TRUST + "ContextVar token semantics, codefind registry and transform() are used through ghost events; capture tuples of length <= 2 over 3 elements per operation.",
+        technique=TECH),
+    "C07": dict(category="proof", design_ref="DESIGN.md section 5/C07",
+        text="Deductive: Total.{__init__,accumulator_for,log,leaves,close}, Capture.accum, fork/build, proceed (template fork, close_at_exit, unbounded), Interactor.register/exit (exit: any number of accumulators) and proceed.__exit__ are under contract.",
+        note=TRUST + "Total.close/leaves and build on concrete accumulator trees (<=2 leaves, depth<=3: bounded, labelled).",
+        technique=TECH),
+    "C09": dict(category="proof", design_ref="DESIGN.md section 5/C09",
+        text="Deductive: proceed.__enter__/__exit__ contracts (restore on LIFO exit, interactor.exit exactly once, exceptions not swallowed); the non-LIFO clause demanded by the property fails on the real code and is recorded as a known finding with a native replay.",
+        note=TRUST + "ContextVar token semantics assumed; generator suspension itself is CPython semantics (the segment obligation on the transformer output is part of the transformer contracts).",
+        technique=TECH),
     "C12": dict(category="proof", design_ref="DESIGN.md section 5/C12",
         text="Deductive: obligations generated from the real bodies of Range/every/between/lt/gt/lte/gte/throttle, Selector.check_captures (two nested loop invariants, any number of constraints and values) and the BaseAccumulator filter wrapper/trigger/intercept path are discharged by z3 for all integers and all capture dictionaries.",
-        note="Trusted: pvc symbolic executor (Python subset semantics, floor-mod encoding), z3; match functions assumed pure predicates; handler callbacks opaque and deterministic. Bounded stand-in (labelled) only used when the loop structure of check_captures changes.",
-        technique="contract-based deductive verification: AST->VC symbolic execution of the real functions + z3 (cvc5 cross-check in thorough)"),
+        note=TRUST + "match functions assumed pure predicates; handler callbacks opaque and deterministic. Bounded stand-in (labelled) only used when the loop structure of check_captures changes.",
+        technique=TECH),
+    "C17": dict(category="proof", design_ref="DESIGN.md section 5/C17",
+        text="Deductive: Probe.__init__/_enter/_exit/_emit/_make_rule and giving.SourceProxy.__init__/_push/__enter__/__exit__ (interpreted from the installed giving/gvn.py) are executed symbolically through a full life-cycle history; _push/__exit__ fan-out proved for any number of observers.",
+        note=TRUST + "reactivex operators (reductions publish one value on completion, subscribe calls make once) are assumed; autotool used through its contract.",
+        technique=TECH),
 }
 NOT_YET = {
 }
